@@ -2,5 +2,6 @@
 # usage: try_seeded.sh <patch> <prop> [more props...] : apply a seeded change to /repo, run the checks, undo
 P=$1; shift
 git -C /repo apply "$P" || exit 2
+export VERIF_EVIDENCE_DIR=/tmp/verif-seeded-evidence
 for c in "$@"; do VERIF_NOSHRINK=1 /verif/check $c 2>&1 | grep -v "^KNOWN" | cut -c1-260 | head -3; done
 git -C /repo checkout -- .
